@@ -6,6 +6,8 @@ CONSTANTS
   Times <- HdrTimes
   QStr <- HdrQStr
   BadJs <- HdrBadJs
+  Acts <- HdrActs
+  CondCodes <- HdrCondCodes
   MaxFacts <- HdrMax
 CONSTRAINT Mark
 POSTCONDITION Accepted
